@@ -497,6 +497,9 @@ func (c *Compiler) isFeatureValid(m parse.Node, n parse.Node, featTree map[strin
 		c.assertReferenceStatus(n, feature, schema.Current)
 		enabled = c.isFeatureValid(mod, feature, featTree) && enabled
 	}
+	// Only features on the current if-feature chain can close a cycle: two
+	// chains may legitimately meet in the same feature.
+	delete(featTree, featName)
 
 	// update the verified features
 	c.verifiedFeatures.set(featName, enabled)
